@@ -188,7 +188,7 @@ class ExcAnalysis:
         out = set()
         if kind not in ('call', 'ctor') or not isinstance(call, ast.Call):
             return frozenset()
-        params = callee.params[1:] if callee.cls is not None else callee.params
+        params = callee.bound_params()
         if any(isinstance(a, ast.Starred) for a in call.args) or any(k.arg is None for k in call.keywords):
             return frozenset()
         given = {}
